@@ -64,6 +64,8 @@ def eval_cond(c, env, domains=None) -> bool:
         return all(eval_cond(c[2], {**env, u: w}, domains) for w in domains[u])
     if k == "const":
         return bool(c[1])
+    if k == "sub":          # an(entity(v, c)) / an(set_of(vs, c)) used as a condition: means c
+        return eval_cond(c[3], env, domains)
     raise ValueError(f"unknown condition {c!r}")
 
 
@@ -93,6 +95,8 @@ def cond_vars(c) -> set:
         return s
     if k == "not":
         return cond_vars(c[2])
+    if k == "sub":
+        return cond_vars(c[3])
     if k == "forall":
         return cond_vars(c[2]) - {c[1]}
     raise ValueError(c)
@@ -114,6 +118,8 @@ def walk(c):
             yield from walk(x)
     elif c[0] in ("not", "forall"):
         yield from walk(c[2])
+    elif c[0] == "sub":
+        yield from walk(c[3])
 
 
 def terms_of(c):
@@ -219,4 +225,7 @@ def r_cond(c) -> str:
         return f"for_all({ut}, {r_cond(c[2])})"
     if k == "const":
         return repr(bool(c[1]))
+    if k == "sub":
+        sel = ", ".join(f"v{i}" for i in c[2])
+        return f"an(entity({sel}, {r_cond(c[3])}))" if c[1] == "entity" else f"an(set_of([{sel}], {r_cond(c[3])}))"
     return str(c)
